@@ -25,11 +25,12 @@ def tier_params(tier: str) -> dict:
                     floor_len=3, crash_enum=["short:while_break", "short:for_break", "short:capt2", "short:if_chain",
                                              "short:class_super", "short:from_import"],
                     gen_o2=600, determinism_pairs=200, max_len=12, hunt_stmts=6000,
-                    hunt_runs=int(os.environ.get("VERIF_C10_HUNT", 3000)), pair_models=all_option_sets())
+                    hunt_runs=int(os.environ.get("VERIF_C10_HUNT", 3000)), pair_models=all_option_sets(), oo_len=6,
+                    triples=not os.environ.get("VERIF_C10_NOTRIPLES"))
     return dict(n_hash=8, replicas=2, n_hash311=0, histories=int(os.environ.get("VERIF_C10_HISTORIES", 12000)),
                 floor_len=3, crash_enum=["short:for_break"], gen_o2=240, determinism_pairs=32, max_len=12,
                 hunt_stmts=6000, hunt_runs=int(os.environ.get("VERIF_C10_HUNT", 128)),
-                pair_models=[{"unparser": "oneliner", "expr_wrapper": "list", "if_style": "short_circuit"}])
+                pair_models=[{"unparser": "oneliner", "expr_wrapper": "list", "if_style": "short_circuit"}], oo_len=5, triples=False)
 
 
 # ---------------------------------------------------------------------------------------------
@@ -408,6 +409,35 @@ def run(repo: str, tier: str, seed: int, replay_dir=None, write_ev=True, jobs=No
         cov["evaluations"] += floor_runs
         log("floor: %d histories, %d failing" % (floor_runs, len(floor_fail)))
 
+        # ---- phase option-object floor: ONE object, all sequences <= 5 of {6 sets, 2 conversions} ------
+        # (a snapshot of the options taken at first use, refreshed only under some condition, an
+        # option changed and changed back, the same value set twice ...)
+        oo_acts = [{"op": "set", "obj": "o1", "name": n, "value": v} for n in OPTION_NAMES for v in OPTION_SPACE[n]]
+        oo_convs = [{"op": "conv", "prog": "short:sentinel", "obj": "o1"}, {"op": "conv", "prog": "short:if_chain", "obj": "o1"}]
+        oo_all = oo_acts + oo_convs
+        oo_hist = []
+
+        def _oo(prefix, depth):
+            for last in oo_convs:
+                oo_hist.append([{"op": "new", "id": "o1"}] + prefix + [last])
+            if depth < P["oo_len"] - 1:
+                for a in oo_all:
+                    _oo(prefix + [a], depth + 1)
+
+        _oo([], 0)
+        ojobs = [(groups12[(i // 600) % len(groups12)], {"cmd": "c10_histories", "ops_list": oo_hist[i:i + 600]})
+                 for i in range(0, len(oo_hist), 600)]
+        oo_fail = []
+        for (g, req), r in zip(ojobs, fleet.run(ojobs)):
+            for f in r["failures"]:
+                oo_fail.append((g, f))
+            _merge(cov, r, states, transitions, desc_digests)
+        cov["phases"]["option_object_floor"] = {"histories": len(oo_hist), "exhaustive_up_to_length": P["oo_len"],
+                                                "alphabet": "one object; set(name, value) for 3 names x 2 values; convert(sentinel|if_chain) with it",
+                                                "failures": len(oo_fail)}
+        cov["evaluations"] += len(oo_hist)
+        log("option-object floor: %d histories, %d failing" % (len(oo_hist), len(oo_fail)))
+
         # ---- phase crash-point enumeration -----------------------------------------------
         ce_jobs = []
         ce_total = 0
@@ -473,6 +503,34 @@ def run(repo: str, tier: str, seed: int, replay_dir=None, write_ev=True, jobs=No
                                           "failures": len(pair_fail)}
         cov["evaluations"] += len(pair_hist)
         log("program pairs: %d histories, %d failing" % (len(pair_hist), len(pair_fail)))
+
+        # ---- phase program triples (thorough): conv(A); conv(B); conv(C) over the short programs --------
+        triple_fail = []
+        if P.get("triples"):
+            T_keys = [k for k in _c10.OK_KEYS if k.startswith("short:")] + _c10.FAIL_KEYS
+            C_keys = [k for k in _c10.OK_KEYS if k.startswith("short:")]
+            tjobs = []
+            n_tr = 0
+            gi = 0
+            for a in T_keys:
+                chunk = []
+                for b in T_keys:
+                    for c in C_keys:
+                        if a != b and b != c:
+                            chunk.append([{"op": "conv", "prog": a, "obj": None}, {"op": "conv", "prog": b, "obj": None},
+                                          {"op": "conv", "prog": c, "obj": None}])
+                n_tr += len(chunk)
+                for i in range(0, len(chunk), 400):
+                    tjobs.append((groups12[gi % len(groups12)], {"cmd": "c10_histories", "ops_list": chunk[i:i + 400]}))
+                    gi += 1
+            for (g, req), r in zip(tjobs, fleet.run(tjobs)):
+                for f in r["failures"]:
+                    triple_fail.append((g, f))
+                _merge(cov, r, states, transitions, desc_digests)
+            cov["phases"]["program_triples"] = {"histories": n_tr, "exhaustive_over": "all ordered triples of the short pool programs "
+                                                "(first two also over failing programs), no options", "failures": len(triple_fail)}
+            cov["evaluations"] += n_tr
+            log("program triples: %d histories, %d failing" % (n_tr, len(triple_fail)))
 
         # ---- phase collision hunt --------------------------------------------------------------
         # One output with thousands of temporaries of the same template, under many reseed values:
@@ -558,7 +616,7 @@ def run(repo: str, tier: str, seed: int, replay_dir=None, write_ev=True, jobs=No
         log("determinism self-check: %d pairs, %d mismatches" % (pairs, mism))
 
         # ---- shrink + replay-verify failures ---------------------------------------------
-        all_fail = floor_fail + ce_fail + pair_fail + hunt_fail + seeded_fail
+        all_fail = floor_fail + oo_fail + ce_fail + pair_fail + triple_fail + hunt_fail + seeded_fail
         unreproducible = []
         by_class = {}
         for g, f in all_fail:
